@@ -180,7 +180,7 @@ func H07many_filters() {
 	b := vrtBroker("mockSuccess")
 	a, _ := b.connect(vrtConnectPkt([]byte("a"), true))
 	w, _ := b.connect(vrtConnectPkt([]byte("w"), true))
-	ns := []int{24, 25, 26, 125, 126, 127, 128, 200}
+	ns := []int{21, 24, 25, 26, 125, 126, 127, 128, 200} // (21 filters: the SUBSCRIBE has a remaining length of exactly 128)
 	n := ns[vrtChoice("nfilters", len(ns))]
 	sub := &specPkt{Typ: specSUBSCRIBE, ID: 7}
 	unsub := &specPkt{Typ: specUNSUBSCRIBE, ID: 8}
@@ -207,4 +207,54 @@ func H07many_filters() {
 	vrtAssert("C07.unsubscribed_after_unsuback", len(a.peerTake()) == 0)
 	vrtObserve("many", n)
 	vrtReach("C07.many_filters")
+}
+
+// H07_other_client_leaves: a subscription stays in effect until ITS client
+// unsubscribes or leaves - not when another client that holds the very same
+// filter does.
+func H07_other_client_leaves() {
+	topics.MaxQosAllowed = 2
+	b := vrtBroker("mockSuccess")
+	a, _ := b.connect(vrtConnectPkt([]byte("a"), true))
+	o, _ := b.connect(vrtConnectPkt([]byte("o"), vrtBool("other_clean")))
+	p, _ := b.connect(vrtConnectPkt([]byte("p"), true))
+	filters := [][]byte{[]byte("t"), []byte("t/+"), []byte("#")}
+	F := filters[vrtChoice("filter", len(filters))]
+	topic := []byte("t/x")
+	if len(F) == 1 && F[0] == 't' {
+		topic = []byte("t")
+	}
+	qa, qo := vrtByte("qa"), vrtByte("qo")
+	vrtAssume(vrtAnd(qa <= 2, qo <= 2))
+	if vrtBool("other_subscribes_first") {
+		vrtExchange(o, &specPkt{Typ: specSUBSCRIBE, ID: 1, Topics: [][]byte{F}, QoS: []byte{qo}})
+		vrtExchange(a, &specPkt{Typ: specSUBSCRIBE, ID: 1, Topics: [][]byte{F}, QoS: []byte{qa}})
+	} else {
+		vrtExchange(a, &specPkt{Typ: specSUBSCRIBE, ID: 1, Topics: [][]byte{F}, QoS: []byte{qa}})
+		vrtExchange(o, &specPkt{Typ: specSUBSCRIBE, ID: 1, Topics: [][]byte{F}, QoS: []byte{qo}})
+	}
+	a.peerTake()
+	switch vrtChoice("other_leaves_by", 3) {
+	case 0:
+		vrtExchange(o, &specPkt{Typ: specDISCONNECT})
+		o.peerClose()
+	case 1:
+		o.peerClose()
+	case 2:
+		o.peerTake()
+		ans := vrtExchange(o, &specPkt{Typ: specUNSUBSCRIBE, ID: 2, Topics: [][]byte{F}})
+		vrtAssert("C07.unsuback", vrtBytesEq(ans, []byte{0xB0, 2, 0, 2}))
+	}
+	vrtQuiesce()
+	vrtExchange(p, &specPkt{Typ: specPUBLISH, Flags: 2, ID: 5, Topic: topic, Payload: []byte("m")})
+	got, ok := vrtParse(a.peerTake())
+	vrtAssert("C07.stream_wellformed", ok)
+	vrtAssert("C07.subscription_survives_other_clients_leaving", len(got) == 1)
+	if len(got) == 1 {
+		vrtAssert("C07.surviving_subscription_qos", (got[0].Flags>>1)&3 == specMinQos(1, qa))
+	}
+	if !o.isClosed() {
+		vrtAssert("C07.no_delivery_after_unsuback", len(o.peerTake()) == 0)
+	}
+	vrtReach("C07.other_client_left")
 }
